@@ -445,6 +445,7 @@ pub fn run(ctx: &mut Ctx) -> Result<(), Violation> {
     ctx.stage("random-lists", false, r)?;
     let wc = ctx.tier.cases(3_000, 60_000);
     crate::wide::stage_count(ctx, "wide-long-lists", wc)?;
+    crate::wide::fuzz_kind(ctx, "count", replay)?;
     let wc = ctx.tier.cases(100, 2000);
     crate::widetext::stage_long_lists(ctx, "text-lists-of-14-to-21-literals", wc)?;
     Ok(())
